@@ -12,8 +12,14 @@
 (*           (PublishAsync stream, sends are pipelined) | "sync" (unary     *)
 (*           Publish RPC: one outstanding publish per publisher)            *)
 (*   msgs  = every publish issued so far, in send order; msgs[id] =         *)
-(*           [p, exp, pol, sendT, ackT, res, off]                           *)
+(*           [p, exp, pol, via, sendT, ackT, res, off]                      *)
 (*             p     publisher                                              *)
+(*             via   who publishes / the entry point: "api" (gRPC, cfg.path) *)
+(*                   | "subj" (PublishToSubject RPC: no expected-offset     *)
+(*                   field) | "nats" (envelope written to the NATS subject  *)
+(*                   by the publisher itself, with an ack inbox) | "natsq"  *)
+(*                   (the same without ack inbox: never answered) | "plain" *)
+(*                   (NATS message without envelope: no field at all)       *)
 (*             exp   expected offset carried by the message (-1 = waived)   *)
 (*             pol   ack policy "leader" | "all" | "none"                   *)
 (*             sendT logical time just before the publisher sent it         *)
@@ -35,6 +41,19 @@
 (*           commit log closed); the next publish that passes the API       *)
 (*           preconditions resumes it (api.go resumeStream) before it is    *)
 (*           sent to NATS                                                   *)
+(*   eocc  = the concurrency-control setting of the RUNNING commit log (what *)
+(*           the leader loop and the API preconditions read); cfg.occ = what *)
+(*           the stream was created with.  They differ only in defective    *)
+(*           variants (a restart / snapshot that loses the setting)         *)
+(*   snap  = what the newest persisted Raft snapshot says about the stream: *)
+(*           "none" (it does not hold a stream of that name) | "pred" (it   *)
+(*           holds the deleted predecessor with the opposite setting) |     *)
+(*           "cur" (it holds the stream of the round).  A restart recovers  *)
+(*           from the snapshot + the Raft log tail when there is one, by    *)
+(*           replaying the whole Raft log otherwise                         *)
+(*   infl  = publisher -> in-flight counter of its PublishAsync session     *)
+(*   unc   = ids the session's publishLoop has handed to NATS and not yet   *)
+(*           counted (publishLoop publishes first and counts afterwards)    *)
 (*                                                                         *)
 (* Two kinds of formulas:                                                  *)
 (*   Do<Action>      the step exactly as the code performs it               *)
@@ -49,8 +68,8 @@ EXTENDS Integers, Sequences, FiniteSets
 
 CONSTANTS Pubs
 
-VARIABLES cfg, msgs, net, chan, log, ackq, clk, known, paused
-vars == <<cfg, msgs, net, chan, log, ackq, clk, known, paused>>
+VARIABLES cfg, msgs, net, chan, log, ackq, clk, known, paused, eocc, snap, infl, unc
+vars == <<cfg, msgs, net, chan, log, ackq, clk, known, paused, eocc, snap, infl, unc>>
 
 Inf == 1000000000
 
@@ -59,6 +78,20 @@ SetMin(S) == CHOOSE x \in S : \A y \in S : x <= y
 Max0(x) == IF x < 0 THEN 0 ELSE x
 
 Ids == 1..Len(msgs)
+
+\* who publishes
+Raw    == {"nats", "natsq", "plain"}   \* the publisher's own NATS connection
+NoExp  == {"plain", "subj"}            \* no expected-offset field at all
+Silent == {"natsq", "plain"}           \* no ack inbox: never answered
+HasExp(id) == msgs[id].via \notin NoExp
+\* messages of one publisher travel in order only over the same connection
+Link(id) == IF msgs[id].via \in Raw THEN "raw" ELSE msgs[id].via
+SameLine(a, b) == msgs[a].p = msgs[b].p /\ Link(a) = Link(b)
+\* a PublishAsync session counts it
+InSession(id) == msgs[id].via = "api" /\ cfg.path = "async" /\ msgs[id].pol # "none"
+\* the expected offset the leader loop works with: a message without the field
+\* is handled as "expected offset 0" (natsToProtoMessage leaves the zero value)
+EffExp(id) == IF HasExp(id) THEN msgs[id].exp ELSE 0
 
 -----------------------------------------------------------------------------
 (* Publisher side *)
@@ -80,43 +113,66 @@ ExpOf(p, kind) ==
 \* ensurePublishPreconditions) - whatever the state of the partition; the
 \* refusal is the answer.  A publish that passes resumes a paused partition
 \* (resumeStream) and is then sent to NATS.
-SendAs(p, kind, pol, refused) ==
+\* Only the gRPC Publish / PublishAsync calls check preconditions and resume a
+\* paused partition; everything else goes straight to the NATS subject (a
+\* message for a paused partition is lost - nobody is subscribed; such sends
+\* are not modelled: no answer cannot be told from slowness).
+\* hold: the PublishAsync session is descheduled between its NATS publish and
+\* its in-flight count (DoCount is then a step of its own).
+SendAs(p, kind, pol, via, hold, refused) ==
   LET id == Len(msgs) + 1
-      \* ack policy NONE otherwise: fire and forget, the call returns at once
-      answered == pol = "none" IN
-  /\ msgs' = Append(msgs, [p |-> p, exp |-> ExpOf(p, kind), pol |-> pol, sendT |-> clk,
+      \* ack policy NONE otherwise / no ack inbox: fire and forget
+      answered == pol = "none" \/ via \in Silent
+      session == via = "api" /\ cfg.path = "async" /\ pol # "none" /\ ~refused IN
+  /\ via # "api" => ~paused
+  \* publishLoop is one goroutine: it takes the next request after the count
+  /\ (via = "api" /\ cfg.path = "async") => \A j \in unc : msgs[j].p # p
+  /\ msgs' = Append(msgs, [p |-> p, exp |-> IF via \in NoExp THEN -1 ELSE ExpOf(p, kind), pol |-> pol,
+                           via |-> via, sendT |-> clk,
                            ackT |-> IF answered THEN clk + 1 ELSE Inf,
                            res |-> IF refused THEN "bad_request" ELSE IF answered THEN "noack" ELSE "pending",
                            off |-> -1])
   /\ net' = IF refused THEN net ELSE net \cup {id}
   /\ paused' = IF refused THEN paused ELSE FALSE
   /\ clk' = clk + 2
-  /\ UNCHANGED <<cfg, chan, log, ackq, known>>
+  /\ unc' = IF session /\ hold THEN unc \cup {id} ELSE unc
+  /\ infl' = IF session /\ ~hold THEN [infl EXCEPT ![p] = @ + 1] ELSE infl
+  /\ UNCHANGED <<cfg, chan, log, ackq, known, eocc, snap>>
 
-DoSend(p, kind, pol) == SendAs(p, kind, pol, cfg.occ /\ pol = "none")
+DoSend(p, kind, pol, via, hold) == SendAs(p, kind, pol, via, hold, via = "api" /\ eocc /\ pol = "none")
+
+\* the session counts the publish it handed to NATS
+DoCount(id) ==
+  /\ id \in unc
+  /\ unc' = unc \ {id}
+  /\ infl' = [infl EXCEPT ![msgs[id].p] = @ + 1]
+  /\ UNCHANGED <<cfg, msgs, net, chan, log, ackq, clk, known, paused, eocc, snap>>
 
 \* PauseStream while nothing is in flight: the leader loop stops, the commit
 \* log is closed (what it holds stays)
 DoPause ==
-  /\ ~paused /\ net = {} /\ chan = <<>> /\ ackq = {}
+  /\ ~paused /\ net = {} /\ chan = <<>> /\ ackq = {} /\ unc = {}
   /\ paused' = TRUE
-  /\ UNCHANGED <<cfg, msgs, net, chan, log, ackq, clk, known>>
+  /\ UNCHANGED <<cfg, msgs, net, chan, log, ackq, clk, known, eocc, snap, infl, unc>>
 
 \* the publisher asks the server for the end of the log (partition metadata)
 DoRead(p) ==
   /\ known' = [known EXCEPT ![p] = Len(log)]
-  /\ UNCHANGED <<cfg, msgs, net, chan, log, ackq, clk, paused>>
+  /\ UNCHANGED <<cfg, msgs, net, chan, log, ackq, clk, paused, eocc, snap, infl, unc>>
 
 \* the answer reaches the publisher (acks of one publisher arrive in order)
+\* (a PublishAsync session decrements its in-flight counter, not below 0 - the
+\* ack may overtake the count - and forwards the answer in any case)
 DoAckDeliver(id) ==
   /\ id \in ackq
-  /\ \A j \in ackq : msgs[j].p = msgs[id].p => id <= j
+  /\ \A j \in ackq : SameLine(j, id) => id <= j
   /\ ackq' = ackq \ {id}
+  /\ infl' = IF InSession(id) THEN [infl EXCEPT ![msgs[id].p] = Max0(@ - 1)] ELSE infl
   /\ msgs' = [msgs EXCEPT ![id].ackT = clk]
   /\ clk' = clk + 1
   /\ known' = [known EXCEPT ![msgs[id].p] =
                  IF msgs[id].res = "ok" /\ msgs[id].off + 1 > @ THEN msgs[id].off + 1 ELSE @]
-  /\ UNCHANGED <<cfg, net, chan, log, paused>>
+  /\ UNCHANGED <<cfg, net, chan, log, paused, eocc, snap, unc>>
 
 -----------------------------------------------------------------------------
 (* Server side *)
@@ -125,13 +181,13 @@ DoAckDeliver(id) ==
 \* messages of different publishers race
 DoArrive(id) ==
   /\ id \in net
-  /\ \A j \in net : msgs[j].p = msgs[id].p => id <= j
+  /\ \A j \in net : SameLine(j, id) => id <= j
   /\ net' = net \ {id}
   /\ chan' = Append(chan, id)
-  /\ UNCHANGED <<cfg, msgs, log, ackq, clk, known, paused>>
+  /\ UNCHANGED <<cfg, msgs, log, ackq, clk, known, paused, eocc, snap, infl, unc>>
 
 \* messageProcessingLoop: with concurrency control the batch size is forced to 1
-BatchSize == IF cfg.occ THEN 1 ELSE cfg.batch
+BatchSize == IF eocc THEN 1 ELSE cfg.batch
 
 Stamped(b, base) == [i \in 1..Len(b) |-> [off |-> base + i - 1, id |-> b[i]]]
 IdxIn(b, id) == CHOOSE i \in 1..Len(b) : b[i] = id
@@ -144,31 +200,69 @@ DoProcess(n) ==
   /\ n \in 1..BatchSize /\ n <= Len(chan)
   /\ LET b    == SubSeq(chan, 1, n)
          base == Len(log)
-         bad  == cfg.occ /\ msgs[b[1]].exp # -1 /\ msgs[b[1]].exp # base
+         bad  == eocc /\ EffExp(b[1]) # -1 /\ EffExp(b[1]) # base
+         \* nobody to answer: ack policy NONE / no ack inbox
+         mute(id) == msgs[id].pol = "none" \/ msgs[id].via \in Silent
      IN /\ chan' = SubSeq(chan, n + 1, Len(chan))
         /\ IF bad THEN
              /\ log' = log
              \* (ack policy NONE cannot get here on a stream with concurrency
              \* control - the API refuses it; if it did, the publisher of the
              \* unary RPC has already been answered and nobody reads the ack)
-             /\ msgs' = IF msgs[b[1]].pol = "none" THEN msgs
+             /\ msgs' = IF mute(b[1]) THEN msgs
                         ELSE [msgs EXCEPT ![b[1]].res = "incorrect_offset"]
-             /\ ackq' = IF msgs[b[1]].pol = "none" THEN ackq ELSE ackq \cup {b[1]}
+             /\ ackq' = IF mute(b[1]) THEN ackq ELSE ackq \cup {b[1]}
            ELSE
              /\ log' = log \o Stamped(b, base)
              /\ msgs' = [id \in DOMAIN msgs |->
-                           IF InBatch(b, id) /\ msgs[id].pol # "none"
+                           IF InBatch(b, id) /\ ~mute(id)
                            THEN [msgs[id] EXCEPT !.res = "ok", !.off = base + IdxIn(b, id) - 1]
                            ELSE msgs[id]]
-             /\ ackq' = ackq \cup {b[i] : i \in {j \in 1..n : msgs[b[j]].pol # "none"}}
-  /\ UNCHANGED <<cfg, net, clk, known, paused>>
+             /\ ackq' = ackq \cup {b[i] : i \in {j \in 1..n : ~mute(b[j])}}
+  /\ UNCHANGED <<cfg, net, clk, known, paused, eocc, snap, infl, unc>>
 
-Quiescent == net = {} /\ chan = <<>> /\ ackq = {}
+Quiescent == net = {} /\ chan = <<>> /\ ackq = {} /\ unc = {}
+
+-----------------------------------------------------------------------------
+(* How the server comes back *)
+
+\* the metadata Raft group persists a snapshot of its state machine (between
+\* two waves): it holds the stream of the round
+DoSnapshot ==
+  /\ Quiescent
+  /\ snap' = "cur"
+  /\ UNCHANGED <<cfg, msgs, net, chan, log, ackq, clk, known, paused, eocc, infl, unc>>
+
+\* The server is stopped and started again on the same data directory (nothing
+\* in flight).  keeps = the snapshot's copy of the stream carries the
+\* concurrency-control setting (TRUE in the code as it is).  With a snapshot
+\* that holds the stream the stream comes back from the snapshot's copy, in
+\* every other case from its CREATE_STREAM entry in the Raft log (replayed
+\* after a snapshot that holds nothing / the deleted predecessor).  The commit
+\* log is reopened with that setting; the PublishAsync sessions are new.
+DoRestartAs(keeps) ==
+  /\ Quiescent
+  /\ eocc' = IF snap = "cur" /\ ~keeps THEN FALSE ELSE cfg.occ
+  /\ infl' = [p \in DOMAIN infl |-> 0]
+  /\ UNCHANGED <<cfg, msgs, net, chan, log, ackq, clk, known, paused, snap, unc>>
+DoRestart == DoRestartAs(TRUE)
+
+\* The RUNNING server takes a snapshot and installs it (Server.Restore, what
+\* Raft does to a lagging server): every stream is rebuilt from the
+\* snapshot's copy, its commit log reopened; the sessions stay.
+DoInstallAs(keeps) ==
+  /\ Quiescent
+  /\ snap' = "cur"
+  /\ eocc' = IF keeps THEN cfg.occ ELSE FALSE
+  /\ UNCHANGED <<cfg, msgs, net, chan, log, ackq, clk, known, paused, infl, unc>>
+DoInstall == DoInstallAs(TRUE)
 
 Init ==
   /\ cfg \in [occ : BOOLEAN, batch : {1, 2}, path : {"async", "sync"}]
   /\ msgs = <<>> /\ net = {} /\ chan = <<>> /\ log = <<>> /\ ackq = {}
   /\ clk = 1 /\ known = [p \in Pubs |-> 0] /\ paused = FALSE
+  /\ eocc = cfg.occ /\ snap \in {"none", "pred", "cur"}
+  /\ infl = [p \in Pubs |-> 0] /\ unc = {}
 
 -----------------------------------------------------------------------------
 (* What C16 demands of one iteration of the leader loop (design check only:  *)
@@ -179,7 +273,8 @@ RECURSIVE RefLog(_, _)
 RefLog(b, l) ==
   IF b = <<>> THEN l
   ELSE LET m == msgs[Head(b)]
-           acc == ~cfg.occ \/ m.exp = -1 \/ m.exp = Len(l)
+           \* (a message without the field: as the code handles it today)
+           acc == ~cfg.occ \/ EffExp(Head(b)) = -1 \/ EffExp(Head(b)) = Len(l)
        IN RefLog(Tail(b), IF acc THEN Append(l, [off |-> Len(l), id |-> Head(b)]) ELSE l)
 
 InLog(l, id) == \E i \in 1..Len(l) : l[i].id = id
@@ -189,9 +284,9 @@ P_Process(b) ==
   /\ log' = RefLog(b, log)
   /\ \A i \in 1..Len(b) :
        IF InLog(log', b[i])
-       THEN \/ msgs[b[i]].pol = "none"
+       THEN \/ msgs[b[i]].pol = "none" \/ msgs[b[i]].via \in Silent
             \/ msgs'[b[i]].res = "ok" /\ msgs'[b[i]].off = OffIn(log', b[i])
-       ELSE \/ msgs[b[i]].pol = "none"
+       ELSE \/ msgs[b[i]].pol = "none" \/ msgs[b[i]].via \in Silent
             \/ msgs'[b[i]].res = "incorrect_offset" /\ b[i] \in ackq'
 
 -----------------------------------------------------------------------------
@@ -200,7 +295,11 @@ P_Process(b) ==
 Pos(id) == {i \in 1..Len(log) : log[i].id = id}
 Stored(id) == Pos(id) # {}
 OffOf(id) == log[CHOOSE i \in Pos(id) : TRUE].off
-Cond(id) == cfg.occ /\ msgs[id].exp # -1
+\* a conditional publish / one that waives the check.  A message without an
+\* expected-offset field (plain NATS message, PublishToSubject) is neither: the
+\* statement says nothing about it (implementation level: I_NoExpAsZero)
+Cond(id) == cfg.occ /\ HasExp(id) /\ msgs[id].exp # -1
+Waived(id) == HasExp(id) /\ msgs[id].exp = -1
 \* the answer as far as the publisher has seen it
 R(id) == IF msgs[id].ackT < Inf THEN msgs[id].res ELSE "pending"
 \* explicit refusals by the server ("other" = transport-level error, "timeout":
@@ -236,13 +335,17 @@ Lo(id) == SetMax({0} \cup {OffOf(x) + 1 : x \in {y \in Ids : Stored(y) /\ R(y) =
 Hi(id) == SetMin({Len(log)} \cup {OffOf(x) : x \in {y \in Ids : Stored(y) /\ msgs[y].sendT > msgs[id].ackT}})
 
 C16_RejectJustified ==
-  \A id \in Ids : R(id) = "incorrect_offset" =>
+  \A id \in Ids : (R(id) = "incorrect_offset" /\ HasExp(id)) =>
      /\ Cond(id)                                         \* a waived check is never refused
      /\ \E n \in Lo(id)..Hi(id) : n # msgs[id].exp
 
 \* expected offset -1 is always accepted
+\* - whoever publishes: never refused, and stored once nothing is in flight
+\* (a publisher without ack inbox has nothing but the log to tell)
 C16_WaivedAccepted ==
-  \A id \in Ids : (msgs[id].exp = -1 /\ ~(cfg.occ /\ msgs[id].pol = "none")) => R(id) \notin Errors
+  \A id \in Ids : (Waived(id) /\ ~(cfg.occ /\ msgs[id].via = "api" /\ msgs[id].pol = "none")) =>
+     /\ R(id) \notin Errors
+     /\ (cfg.occ /\ Quiescent /\ R(id) \notin {"timeout", "other"}) => Stored(id)
 
 \* of the publishes racing with the same expected offset at most one is stored
 C16_OneWinner ==
@@ -252,7 +355,7 @@ C16_OneWinner ==
 \* server took it without an error it is stored (at the expected offset, see
 \* above); no answer at all is not judged (timing)
 C16_NoneNotSilent ==
-  Quiescent => \A id \in Ids : (Cond(id) /\ R(id) = "noack") => Stored(id)
+  Quiescent => \A id \in Ids : (Cond(id) /\ msgs[id].via = "api" /\ R(id) = "noack") => Stored(id)
 
 \* "otherwise the publisher gets an incorrect-offset error": once nothing is in
 \* flight, a publish that asked for an ack (LEADER or ALL) and is not in the
@@ -262,10 +365,22 @@ C16_NoneNotSilent ==
 \* judged.
 C16_Answered ==
   Quiescent => \A id \in Ids :
-     (msgs[id].pol # "none" /\ ~Stored(id) /\ R(id) \notin {"timeout", "other"}) => R(id) \in Errors
+     (msgs[id].pol # "none" /\ msgs[id].via \notin Silent /\ ~Stored(id) /\ R(id) \notin {"timeout", "other"})
+        => R(id) \in Errors
+
+\* "stored IF it is assigned exactly that offset", for every publisher - with
+\* or without an answer: once nothing is in flight, a conditional publish that
+\* the leader judged and that is not in the log met a log end other than its
+\* expectation.  The log end it met is at least Lo (see above) and at most the
+\* length of the log now; refuted when that window is the single value exp.
+C16_UnstoredJustified ==
+  Quiescent => \A id \in Ids :
+     (Cond(id) /\ ~Stored(id) /\ R(id) \notin {"timeout", "other", "bad_request"})
+        => \E n \in Lo(id)..Len(log) : n # msgs[id].exp
 
 C16_All == /\ C16_Dense /\ C16_Once /\ C16_StoredAtExpected /\ C16_AckOffset /\ C16_RejectNotStored
            /\ C16_RejectJustified /\ C16_WaivedAccepted /\ C16_OneWinner /\ C16_NoneNotSilent /\ C16_Answered
+           /\ C16_UnstoredJustified
 
 -----------------------------------------------------------------------------
 (* Implementation level (conformance; a mismatch is drift, never an alarm)  *)
@@ -274,7 +389,8 @@ C16_All == /\ C16_Dense /\ C16_Once /\ C16_StoredAtExpected /\ C16_AckOffset /\ 
 \* ack policy NONE on a stream with concurrency control is refused outright
 I_Resolved ==
   Quiescent => \A id \in Ids :
-     IF msgs[id].pol = "none"
+     IF msgs[id].via \in Silent THEN R(id) = "noack"
+     ELSE IF msgs[id].pol = "none"
      THEN IF cfg.occ THEN R(id) = "bad_request" /\ ~Stored(id) ELSE Stored(id)
      ELSE R(id) \in {"ok", "incorrect_offset"}
 
@@ -285,19 +401,27 @@ I_NonOccAll == (Quiescent /\ ~cfg.occ) => \A id \in Ids : Stored(id)
 I_Order ==
   \A a, b \in Ids : (Stored(a) /\ Stored(b)) =>
      /\ (R(a) = "ok" /\ msgs[a].ackT < msgs[b].sendT) => OffOf(a) < OffOf(b)
-     /\ (msgs[a].p = msgs[b].p /\ a < b) => OffOf(a) < OffOf(b)
+     /\ (SameLine(a, b) /\ a < b) => OffOf(a) < OffOf(b)
 
 \* sharper window for a refusal, using the per-publisher order as well
-LoF(id) == SetMax({Lo(id)} \cup {OffOf(x) + 1 : x \in {y \in Ids : Stored(y) /\ msgs[y].p = msgs[id].p /\ y < id}})
-HiF(id) == SetMin({Hi(id)} \cup {OffOf(x) : x \in {y \in Ids : Stored(y) /\ msgs[y].p = msgs[id].p /\ y > id}})
+LoF(id) == SetMax({Lo(id)} \cup {OffOf(x) + 1 : x \in {y \in Ids : Stored(y) /\ SameLine(y, id) /\ y < id}})
+HiF(id) == SetMin({Hi(id)} \cup {OffOf(x) : x \in {y \in Ids : Stored(y) /\ SameLine(y, id) /\ y > id}})
 I_RejectWindow ==
-  \A id \in Ids : R(id) = "incorrect_offset" => \E n \in LoF(id)..HiF(id) : n # msgs[id].exp
+  \A id \in Ids : R(id) = "incorrect_offset" => \E n \in LoF(id)..HiF(id) : n # EffExp(id)
+
+\* a message without an expected-offset field is handled as "expected offset 0"
+I_NoExpAsZero == cfg.occ => \A id \in Ids : (~HasExp(id) /\ Stored(id)) => OffOf(id) = 0
+
+\* the running commit log has the setting the stream was created with
+I_OccKept == eocc = cfg.occ
 
 TypeOK ==
   /\ cfg.occ \in BOOLEAN /\ cfg.batch \in Nat
   /\ \A id \in Ids : msgs[id].exp \in Int /\ msgs[id].sendT < msgs[id].ackT
   /\ net \subseteq Ids /\ ackq \subseteq Ids
-  /\ paused \in BOOLEAN
+  /\ paused \in BOOLEAN /\ eocc \in BOOLEAN /\ snap \in {"none", "pred", "cur"}
+  /\ unc \subseteq Ids /\ \A id \in unc : InSession(id)
+  /\ \A id \in Ids : msgs[id].via \in {"api", "subj"} \cup Raw
   \* a paused partition has nothing in flight (the publish that finds it paused resumes it first)
   /\ paused => (net = {} /\ chan = <<>>)
 =============================================================================
